@@ -58,14 +58,7 @@ class SnapshotActionContext(FrameCollectorContext, ActionContext):
     @property
     def collection_config(self) -> VariableProcessorConfig:
         """The variable processing config."""
-        config = VariableProcessorConfig()
-        config.max_string_length = self.location_action.config.get('MAX_STRING_LENGTH',
-                                                                   config.DEFAULT_MAX_STRING_LENGTH)
-        config.max_collection_size = self.location_action.config.get('MAX_COLLECTION_SIZE',
-                                                                     config.DEFAULT_MAX_COLLECTION_SIZE)
-        config.max_variables = self.location_action.config.get('MAX_VARIABLES', config.DEFAULT_MAX_VARIABLES)
-        config.max_var_depth = self.location_action.config.get('MAX_VAR_DEPTH', config.DEFAULT_MAX_VAR_DEPTH)
-        return config
+        return self.variable_config()
 
     @property
     def ts(self) -> int:
@@ -124,9 +117,11 @@ class SnapshotActionContext(FrameCollectorContext, ActionContext):
         log_msg = self.log_msg
         if log_msg is not None:
             # create and process the log message
-            context = LogActionContext(self.trigger_context, LocationAction(self.location_action.id, None, {
-                LOG_MSG: log_msg,
-            }, LocationAction.ActionType.Log))
+            # the log fields are collected into this snapshot, so they obey this tracepoint's limits
+            log_config = {key: value for key, value in self.location_action.config.items() if key.startswith('MAX_')}
+            log_config[LOG_MSG] = log_msg
+            context = LogActionContext(self.trigger_context, LocationAction(self.location_action.id, None, log_config,
+                                                                            LocationAction.ActionType.Log))
             log, watches, log_vars = context.process_log(log_msg)
             snapshot.log_msg = log
             for watch in watches:
